@@ -182,7 +182,15 @@ def pyfftw_call(array_in, array_out, direction='forward', axes=None,
         [planning_effort], direction, halfcomplex, array_in.ndim)
     must_copy_array_in = fftw_plan_in is None and planner_destroys
 
-    if must_copy_array_in:
+    backup = None
+    if must_copy_array_in and np.may_share_memory(array_in, array_out):
+        # In-place transform: the planner overwrites the output array, too,
+        # which here is the array holding the data. An in-place plan has to
+        # be made on aliased arrays, so plan on them and restore the data.
+        backup = array_in.copy()
+        plan_arr_in = array_in
+        flags = [_flag_odl_to_pyfftw(planning_effort)]
+    elif must_copy_array_in:
         # Always plan on a scratch array: the planner overwrites it, also if
         # `array_in` is our own (complex) copy of the real input that still
         # has to be transformed afterwards.
@@ -203,6 +211,8 @@ def pyfftw_call(array_in, array_out, direction='forward', axes=None,
             plan_arr_in, array_out, direction=_flag_odl_to_pyfftw(direction),
             flags=flags, planning_timelimit=planning_timelimit,
             threads=threads, axes=axes)
+        if backup is not None:
+            array_in[...] = backup
     else:
         fftw_plan = fftw_plan_in
 
